@@ -13,7 +13,7 @@ Every datagram goes through OscInterface._handle_request(bytes, (ip, port)) of t
 task that runs the responders.
 Output per history, per op: {'log': invocations [[rid|77777, tag, msg, time, src_addr, src_port, recv_port], ...]
         (+ 'HANG' / 'RAISED:<type>' / 'OPERROR:<type>' markers),
-        'state': {'en': [enabled flags], 'ex': [[path, [rid..]]..], 'mt': same, 'cp': [rid..]}}
+        'state': {'en': [enabled flags], 'ex': [[path, [rid..]]..], 'mt': same, 'we'/'wm': wrapped_funcs order, 'cp': [rid..]}}
         -- the dispatchers' tables and CmdPeriod's registry restricted to this history's responders;
 per dgram {out, hang, raised, alive}."""
 import json, os, signal, socket, struct, sys, threading, time
@@ -188,6 +188,9 @@ def run_history(ops):
                     tbl.append([list(key.encode('utf-8')), ids])
             st[name] = tbl
         mine = {id(r): rid for rid, r in enumerate(resp)}
+        # each dispatcher's wrapped_funcs (responder -> wrapper), in dict order
+        st['we'] = [mine[id(r)] for r in DISP[0].wrapped_funcs if id(r) in mine]
+        st['wm'] = [mine[id(r)] for r in DISP[1].wrapped_funcs if id(r) in mine]
         st['cp'] = [mine[id(a.__self__)] for a in sac.CmdPeriod._actions
                     if getattr(a, '__self__', None) is not None and id(a.__self__) in mine]
         return st
@@ -327,6 +330,15 @@ def probes():
     out['shared_replace'] = list(log)
     r0.free()
     r1.free()
+    del log[:]
+    # matching responders on /c18a, /c18b, /c18a and a pattern that matches both paths
+    def mk2(tag):
+        return lambda msg, time, addr, port: log.append(tag)
+    q0, q1, q2 = OscFunc.matching(mk2(0), '/c18a'), OscFunc.matching(mk2(1), '/c18b'), OscFunc.matching(mk2(2), '/c18a')
+    deliver(ifaces[0], b'/c18?\0\0\0,\0\0\0', ('127.0.0.1', 9))
+    out['matching_order'] = list(log)
+    for q in (q0, q1, q2):
+        q.free()
     del log[:]
     # a responder raising an Exception, then one raising a BaseException; then the next datagram
     def mk(tag, exc=None):
